@@ -11,14 +11,14 @@ RULE = ('grid: size class (0, 1, 2, 100, 4096, 64 KiB-1/0/+1, 128 KiB-1/0/+1, 51
         'in-batch duplicate; add_streamed_objects_to_pack from BytesIO / LazyOpener / files / dribbling streams; add_streamed_object_to_pack '
         'with callback) with random hash_type/loose_prefix_len/zlib level/pack_size_target, plus a sweep write path x hash x prefix x level '
         'x target; the returned key is compared with hashlib, and get_object_content, get_objects_content, chunked get_object_stream (chunk '
-        'sizes 1..512 KiB+1, -1), get_objects_stream_and_meta, meta.size and the raw reader with the stored bytes, again after pack (every '
+        'sizes 1..512 KiB+1, -1), get_objects_stream_and_meta, meta.size (each also through the full-scan lookup strategy on a second handle) and the raw reader with the stored bytes, again after pack (every '
         'mode) / clean / repack (every mode) / reopen. Distinct = sub-case digest; all non-trivial.')
 ASSUMPTIONS = ['object sizes <= 1 MiB + 1 (multi-MiB sizes are exercised by C18\'s streaming probes)', 'quick samples the configuration sweep at 50%']
 TECHNIQUE = 'runtime monitoring: grid of generated inputs x write paths x configurations with hashlib and byte-equality oracles on every read path'
 
 
 def run(ctx):
-    for c in ('writes', 'read-path-evaluations', 'chunked-reads', 'then:pack', 'then:repack', 'path:streams:lazy', 'path:one:callback'):
+    for c in ('writes', 'read-path-evaluations', 'chunked-reads', 'then:pack', 'then:repack', 'path:streams:lazy', 'path:one:callback', 'full-scan-strategy-reads'):
         ctx.require(c)
     rnd = random.Random(f'c01-{ctx.seed}')
     subs = roundtrip.gen_subcases(rnd, ctx.tier)
